@@ -851,6 +851,11 @@ func vFmtDay(day int, layout string) string {
 		return fmt.Sprintf("%04d/%02d/%02d %%", y, m, d)
 	case "%d 2006-01-02 %s":
 		return fmt.Sprintf("%%d %04d-%02d-%02d %%s", y, m, d)
+	case "06/01/02": // two-digit year: only the years 1969..2068 can be written
+		if y < 1969 || y > 2068 {
+			vFault("day %d (year %d) cannot be written in the layout 06/01/02", day, y)
+		}
+		return fmt.Sprintf("%02d/%02d/%02d", y%100, m, d)
 	case "2006/02/01": // year/day/month: a text that is also well-formed in the default layout, with another meaning
 		return fmt.Sprintf("%04d/%02d/%02d", y, d, m)
 	case "02.01.2006":
